@@ -99,6 +99,8 @@ class LegacyDFXPWriter(BaseWriter):
     def write(self, caption_set, force=''):
         caption_set = deepcopy(caption_set)
         caption_set = merge_concurrent_captions(caption_set)
+        # no span can be open when a document starts, whatever was written before
+        self.open_span = False
 
         dfxp = BeautifulSoup(LEGACY_DFXP_BASE_MARKUP, 'lxml-xml')
         dfxp.find('tt')['xml:lang'] = "en"
